@@ -13,6 +13,7 @@ LIM-CHARGE     every emit_limit charge is a small constant, or is guarded by a b
 from common import *
 from rusteval import *
 from paths import block_paths, TooComplex
+import pm
 
 RUNTIME = "src/runtime.rs"
 INPLACE = "src/exec/inplace.rs"
@@ -355,10 +356,8 @@ def run_io_discipline(res, ast):
     # the trampoline of the bytecode interpreter stops on the null ip
     try:
         f = ast.fn(BCMOD, "execute_in", contains="BcInterpreter")
-        loops = [l for l in walk_t(f["node"]["body"], "While")]
-        ok = len(loops) == 1 and ast.src1(BCMOD, loops[0]["cond"]).replace(" ", "") == "!ip.is_null()"
-        asg = [a for a in walk_t(loops[0]["body"], "Assign") if path_name(a["left"]) == "ip"] if loops else []
-        ok = ok and len(asg) == 1 and strip_paren(asg[0]["right"])["t"] == "Call" and path_name(strip_paren(asg[0]["right"])["func"]) == "enter_ops"
+        _pm = pm
+        ok = any(_pm.match_expr(l["cond"], "!__v_ip.is_null()") and _pm.find_expr(l["body"], "__v_ip = enter_ops(__e_c, __v_ip)") for l in walk_t(f["node"]["body"], "While"))
         res.check(ok, "IO-DISCIPLINE", f"{BCMOD}|execute_in|trampoline", where(BCMOD, f["node"], "execute_in"),
                   "the threaded-code trampoline must be `while !ip.is_null() { .. ip = enter_ops(..) }` so that the null ip returned by a failed input/output op ends the run")
     except Missing as m:
@@ -428,7 +427,10 @@ def run_lim(res, ast, with_jit=True):
             okg = gi == 0 and len(st[0]["expr"]["then"]["stmts"]) == 2
         res.check(okg, "LIM-BACKEDGE", f"{INPLACE}|execute_in|]-gate", w,
                   "the `]` arm must start with `if LIMITED { if cxt.budget == 0 { return Ok(false); } cxt.budget -= 1; }` before the jump back")
-        jumps = [a for a in walk_t(arm["body"], "Assign") if path_name(a["left"]) == "pc"]
+        pcs = [pm.match_expr(l["cond"], "__v_pc < __v_bytes.len()") for l in walk_t(f["node"]["body"], "While")]
+        pcs = [b_["__v_pc"] for b_ in pcs if b_]
+        pcn = pcs[0] if pcs else "pc"
+        jumps = [a for a in walk_t(arm["body"], "Assign") if path_name(a["left"]) == pcn]
         res.check(len(jumps) >= 1 and all(j["sp"][0] > st[0]["sp"][2] for j in jumps) if st else False, "LIM-BACKEDGE",
                   f"{INPLACE}|execute_in|]-order", w, "the jump back (`pc = target`) must come after the budget gate")
         # no other backward assignment of pc
@@ -438,7 +440,7 @@ def run_lim(res, ast, with_jit=True):
                 if a is arm:
                     continue
                 for x in walk_t(a["body"], "Assign"):
-                    if path_name(x["left"]) == "pc":
+                    if path_name(x["left"]) == pcn:
                         back.append(x)
         res.check(not back, "LIM-BACKEDGE", f"{INPLACE}|execute_in|other-jumps", w,
                   "`pc` is assigned outside the `]` arm: a second back edge without budget gate")
@@ -477,100 +479,61 @@ def run_lim(res, ast, with_jit=True):
                       "(it also carries the abort of a nested loop outwards)")
     except Missing as m:
         res.missing("LIM-BACKEDGE", m)
-    # ---- bytecode interpreter
+    # ---- bytecode interpreter (structural patterns, independent of local names)
     try:
         f = ast.fn(BCMOD, "build_threaded_code", contains="BcInterpreter")
         body = f["node"]["body"]
+        sigp = [p_["pat"]["name"] for p_ in f["node"]["sig"]["inputs"] if p_["t"] == "Arg"]
+        env0 = {"__v_limited": sigp[0], "__v_safe": sigp[1]} if len(sigp) == 2 else {}
         loops = [l for l in walk_t(body, "ForLoop")]
         main = loops[0]
-        st = main["body"]["stmts"]
         w = where(BCMOD, main, "build_threaded_code")
-
-        def push_to(s, vec):
-            e = s.get("expr") if s["t"] == "ExprStmt" else None
-            return e is not None and e["t"] == "MethodCall" and e["method"] == "push" and path_name(e["receiver"]) == vec
-
-        i_start = [i for i, s in enumerate(st) if push_to(s, "inst_start")]
-        i_off = [i for i, s in enumerate(st) if push_to(s, "inst_offset")]
-        i_lim = [i for i, s in enumerate(st) if s["t"] == "ExprStmt" and limited_block(s["expr"])]
-        i_emit = [i for i, s in enumerate(st) if s["t"] == "ExprStmt" and s["expr"]["t"] == "Call" and path_name(s["expr"]["func"]) == "emit"]
-        good = len(i_start) == len(i_off) == len(i_lim) == len(i_emit) == 1 and i_start[0] < i_lim[0] < i_off[0] < i_emit[0]
-        res.check(good, "LIM-BACKEDGE", f"{BCMOD}|build_threaded_code|order", w,
-                  "per instruction the order must be: inst_start.push, `if limited {emit_limit..}`, inst_offset.push, emit "
+        b1 = pm.match_stmts(main["body"]["stmts"],
+                            "__v_start.push(__v_insts.len()); if __v_limited { __rest; } __v_offs.push(__v_insts.len()); emit(&mut __v_insts, __v_inst, __v_safe);", env0)
+        res.check(b1 is not None, "LIM-BACKEDGE", f"{BCMOD}|build_threaded_code|order", w,
+                  "per instruction the order must be: start.push(insts.len()), `if limited {emit_limit..}`, offset.push(insts.len()), emit(..) "
                   "(so that a branch to this instruction lands on its budget check)")
-        if good:
-            lb = st[i_lim[0]]["expr"]["then"]["stmts"]
+        if b1:
+            lim_if = [s_ for s_ in main["body"]["stmts"] if s_["t"] == "ExprStmt" and s_["expr"]["t"] == "If"][0]["expr"]
             br = False
-            for s in lb:
-                e = s.get("expr")
-                if s["t"] == "ExprStmt" and e["t"] == "If" and strip_paren(e["cond"])["t"] == "Let":
-                    c = strip_paren(e["cond"])
-                    pats = c["pat"]["cases"] if c["pat"]["t"] == "POr" else [c["pat"]]
-                    pn = sorted(p["path"]["name"] for p in pats if p["t"] == "PTupleStruct")
-                    calls = [x for x in walk_t(e["then"], "Call") if path_name(x["func"]) == "emit_limit"]
-                    if pn == ["Instr::BrNZ", "Instr::BrZ"] and len(calls) == 1 and path_name(strip_paren(c["expr"])) == main["pat"]["pat"]["name"] if main["pat"]["t"] == "PRef" else False:
+            for s_ in lim_if["then"]["stmts"]:
+                e = s_.get("expr") if s_["t"] == "ExprStmt" else None
+                if e is None or e["t"] != "If":
+                    continue
+                for alt in ("Instr::BrZ(_, _) | Instr::BrNZ(_, _)", "Instr::BrNZ(_, _) | Instr::BrZ(_, _)"):
+                    if pm.match_expr(e, "if let " + alt + " = __v_inst { emit_limit(&mut __v_insts, __e_cost); }", {"__v_inst": b1["__v_inst"], "__v_insts": b1["__v_insts"]}):
                         br = True
-            res.check(br, "LIM-BACKEDGE", f"{BCMOD}|build_threaded_code|branches", w,
-                      "under `limited` both BrZ and BrNZ must be preceded by emit_limit")
-        # branch fix-up: inst_start[target] - inst_offset[i]
-        fix = None
-        for l in loops[1:]:
-            for c in walk_t(l, "Call"):
-                if path_name(c["func"]) == "adjust_branch":
-                    fix = l
-        okf = False
-        if fix is not None:
-            for loc in walk_t(fix, "Local"):
-                if loc["pat"].get("name") == "offset" and loc["init"] is not None:
-                    e = strip_paren(loc["init"])
-                    if e["t"] == "Binary" and e["op"] == "-":
-                        l, r = strip_paren(e["left"]), strip_paren(e["right"])
-                        while l["t"] == "Cast":
-                            l = strip_paren(l["expr"])
-                        while r["t"] == "Cast":
-                            r = strip_paren(r["expr"])
-                        okf = (l["t"] == "Index" and path_name(l["expr"]) == "inst_start" and strip_paren(l["index"])["t"] == "MethodCall"
-                               and strip_paren(l["index"])["method"] == "wrapping_add_signed"
-                               and r["t"] == "Index" and path_name(r["expr"]) == "inst_offset" and path_name(strip_paren(r["index"])) == "i")
-        res.check(okf, "LIM-BACKEDGE", f"{BCMOD}|build_threaded_code|fixup", where(BCMOD, f["node"], "build_threaded_code"),
-                  "branch offsets must be inst_start[i + off] - inst_offset[i]: the target includes the target's budget check, "
-                  "the origin is the branch op itself")
+            res.check(br, "LIM-BACKEDGE", f"{BCMOD}|build_threaded_code|branches", w, "under `limited` both BrZ and BrNZ must be preceded by emit_limit")
+            okf = False
+            for l in loops[1:]:
+                for loc in walk_t(l, "Local"):
+                    if loc["init"] is None:
+                        continue
+                    if pm.match_expr(loc["init"], f"{b1['__v_start']}[__v_i.wrapping_add_signed(__v_off)] as isize - {b1['__v_offs']}[__v_i] as isize"):
+                        okf = True
+            res.check(okf, "LIM-BACKEDGE", f"{BCMOD}|build_threaded_code|fixup", where(BCMOD, f["node"], "build_threaded_code"),
+                      "branch offsets must be start[i + off] - offset[i]: the target includes the target's budget check, the origin is the branch op itself")
         # the limit op
-        lf = ast.fn(OPS, "limit")
-        ps = block_paths(lf["node"]["body"])
-        good = len(ps) == 2
-        detail = []
-        for conds, ev, term in ps:
-            txt = [ast.src1(OPS, n if k != "let" else n, 120) for k, n in ev]
-            c0 = ast.src1(OPS, conds[0][1]).replace(" ", "") if conds else ""
-            if c0 not in ("(*cxt).context.budget<=cost",):
-                good = False
-            taken = conds[0][2] if conds else None
-            flat = " ; ".join(txt).replace(" ", "")
-            if taken:
-                if "(*cxt).context.budget=0" not in flat or "noop(" in flat or not flat.endswith("ip.add(2)"):
-                    good = False
-                    detail.append("exhausted path must set budget = 0 and return ip.add(2) to the trampoline (not continue)")
-            else:
-                if "(*cxt).context.budget-=cost" not in flat or "noop(cxt,mem,ip.add(2),r0,r1)" not in flat:
-                    good = False
-                    detail.append("funded path must charge `budget -= cost` and continue with the next op")
-        res.check(good, "LIM-BACKEDGE", f"{OPS}|limit|paths", where(OPS, lf["node"], "limit"),
-                  "limit op: `if budget <= cost { budget = 0; spill; ip.add(2) } else { budget -= cost; noop(.., ip.add(2), ..) }`; " + "; ".join(detail))
+        lf = ast.fn(OPS, "limit")["node"]
+        ps = [p_["pat"]["name"] for p_ in lf["sig"]["inputs"] if p_["t"] == "Arg" and p_["pat"]["t"] == "PIdent"]
+        envl = {"__v_cxt": ps[0], "__v_mem": ps[1], "__v_ip": ps[2], "__v_r0": ps[3], "__v_r1": ps[4]} if len(ps) == 5 else {}
+        okl = pm.match_stmts(lf["body"]["stmts"],
+                             "let __v_cost = (*__v_ip.add(1)).idx; if (*__v_cxt).context.budget <= __v_cost { (*__v_cxt).context.budget = 0; "
+                             "temps_ptr(__v_cxt).add(0).write(__v_r0); temps_ptr(__v_cxt).add(1).write(__v_r1); (*__v_cxt).context.memory.set_current_ptr(__v_mem); __v_ip.add(2) } "
+                             "else { (*__v_cxt).context.budget -= __v_cost; noop(__v_cxt, __v_mem, __v_ip.add(2), __v_r0, __v_r1) }", envl) is not None
+        res.check(okl, "LIM-BACKEDGE", f"{OPS}|limit|paths", where(OPS, lf, "limit"),
+                  "limit op: `if budget <= cost { budget = 0; spill r0, r1, mem; ip.add(2) } else { budget -= cost; noop(.., ip.add(2), ..) }` - the exhausted "
+                  "path must return to the trampoline (not continue), the funded path must charge and continue")
         # trampoline
-        ef = ast.fn(BCMOD, "execute_in", contains="BcInterpreter")
-        lp = [l for l in walk_t(ef["node"]["body"], "While")]
+        ef = ast.fn(BCMOD, "execute_in", contains="BcInterpreter")["node"]
+        eps = [p_["pat"]["name"] for p_ in ef["sig"]["inputs"] if p_["t"] == "Arg"]
         okt = False
-        if len(lp) == 1:
-            ifs = [s["expr"] for s in walk_t(lp[0]["body"], "ExprStmt") if s["expr"]["t"] == "If"]
-            for i in ifs:
-                c = ast.src1(BCMOD, i["cond"]).replace(" ", "")
-                b = " ".join(ast.src1(BCMOD, s) for s in i["then"]["stmts"]).replace(" ", "")
-                if c == "limited&&(*ops_cxt).context.budget==0" and "finished=false" in b and "break" in b:
-                    enter = [a for a in walk_t(lp[0]["body"], "Assign") if path_name(a["left"]) == "ip"]
-                    okt = bool(enter) and i["sp"][0] < enter[0]["sp"][0]
-        res.check(okt, "LIM-BACKEDGE", f"{BCMOD}|execute_in|trampoline", where(BCMOD, ef["node"], "execute_in"),
-                  "the trampoline must test `limited && budget == 0 -> finished = false; break` before re-entering the ops")
+        for lp in walk_t(ef["body"], "While"):
+            if pm.match_expr(lp, "while !__v_ip.is_null() { unsafe { if __v_limited && (*__v_oc).context.budget == 0 { __v_fin = false; break; } __v_ip = enter_ops(__v_oc, __v_ip); } }",
+                             {"__v_limited": eps[1]} if len(eps) == 3 else {}):
+                okt = True
+        res.check(okt, "LIM-BACKEDGE", f"{BCMOD}|execute_in|trampoline", where(BCMOD, ef, "execute_in"),
+                  "the trampoline must be `while !ip.is_null() { if limited && budget == 0 { finished = false; break } ip = enter_ops(..) }`")
     except (Missing, IndexError, KeyError, TooComplex) as m:
         res.missing("LIM-BACKEDGE", Missing(str(m)))
     # ---- LIM-CHARGE
